@@ -81,6 +81,27 @@ def run(ctx):
         lines.append('D # ' + base); lines.append(cmd + ' # ' + base)
         plan.append((name, crys, kind, cmd, factor, D0, D1, data))
     answers = ctx.lean(DRIVER, lines, timeout=3000)
+    # the derivative output (diffusivity x activation barrier) obeys the same invariances
+    for (name, crys, kind, cmd, factor, D0, D1, data) in plan:
+        if kind == 'displace': continue
+        diffuser = ic._CACHE[('diff', name)][0]
+        lnq = math.log(float(data['q']))
+        pre, be, preT, beT = ic.py_args(data)
+        _, DE0 = diffuser.diffusivity(pre, be, preT, beT, CalcDeriv=True)
+        if kind == 'shift':
+            c = int(cmd.split()[1])
+            _, DE1 = diffuser.diffusivity(pre, [e + c * lnq for e in be], preT, [e + c * lnq for e in beT], CalcDeriv=True)
+        else:
+            sfac = float(Fraction(cmd.split()[1]))
+            _, DE1 = diffuser.diffusivity([sfac * p for p in pre] if kind == 'prescale' else pre, be, [sfac * p for p in preT], beT, CalcDeriv=True)
+        scaleE = max(np.abs(DE0).max(), np.abs(D0).max(), 1e-300)
+        tolE = (1e-9 + 1e-13 * min(ic.rate_spread(data), 1e9)) * scaleE * max(1.0, factor) * (1 + (abs(c) * lnq if kind == 'shift' else 0.0))
+        ctx.count('deriv:' + kind)
+        if not np.all(np.isfinite(DE1)) or np.abs(np.asarray(DE1) - factor * np.asarray(DE0)).max() > tolE:
+            ctx.violation('interstitial-not-invariant:derivative:%s' % kind,
+                          'the derivative output of Interstitial.diffusivity (D x activation barrier) changes under `%s`: max deviation %.3g (tol %.3g)'
+                          % (cmd, np.abs(np.asarray(DE1) - factor * np.asarray(DE0)).max(), tolE),
+                          dict(network=name, transformation=cmd, data={kk: str(v) for kk, v in data.items()}, DE_before=np.asarray(DE0).tolist(), DE_after=np.asarray(DE1).tolist()))
     for k, (name, crys, kind, cmd, factor, D0, D1, data) in enumerate(plan):
         dim = crys.dim
         T0, T1 = _tensor(answers[2 * k], dim), _tensor(answers[2 * k + 1], dim)
